@@ -20,7 +20,7 @@ pub enum Case {
     Gen { kem: Kem, fill: Fill, tag: u64, extra: usize },
     /// gen_keypair / encap with an RNG that hands out exactly these bytes
     GenHex { kem: Kem, script: String },
-    Encap { kem: Kem, auth: bool, tag: u64 },
+    Encap { kem: Kem, auth: bool, tag: u64, #[serde(default)] rel: u8 },
     /// Decap / AuthDecap / AuthEncap with structurally special but VALID keys: private keys 1, 2, n-1, n-2,
     /// public keys G, 2G, -G and the point with x = 0 - in particular pairs whose DH result has x = 0 or is +-G.
     /// RFC 9180 defines an ordinary shared secret for all of them.
@@ -103,7 +103,13 @@ impl Part for C03 {
             }
             for i in 0..(if t { 12 } else { 6 }) {
                 for auth in [false, true] {
-                    v.push(Case::Encap { kem, auth, tag: 7000 + i });
+                    v.push(Case::Encap { kem, auth, tag: 7000 + i, rel: 0 });
+                    if i < 2 {
+                        // relations between the three key pairs of an encapsulation (see the Encap arm of run)
+                        for rel in 1..=4u8 {
+                            v.push(Case::Encap { kem, auth, tag: 7100 + i, rel });
+                        }
+                    }
                 }
             }
             if t || kem == Kem::X25519 || kem == Kem::P256 {
@@ -174,6 +180,16 @@ impl Part for C03 {
                 let long = bytes(Fill::Mix, *to + 1, 3777, cfg.seed);
                 for l in *from..=*to {
                     derive_check(&mut out, *kem, &long[..l], if l % 41 == 0 { tr } else { None });
+                    if l > 0 {
+                        // ... immediately followed by an ikm of the same length that differs in its LAST byte only, and by one
+                        // that differs in its first byte only (consecutive derivations must not be confused with one another)
+                        let mut late = long[..l].to_vec();
+                        late[l - 1] ^= 0x5a;
+                        derive_check(&mut out, *kem, &late, None);
+                        let mut early = long[..l].to_vec();
+                        early[0] ^= 0x5a;
+                        derive_check(&mut out, *kem, &early, None);
+                    }
                 }
             }
             Case::GenHex { kem, script } => {
@@ -279,10 +295,30 @@ impl Part for C03 {
                     (g, w) => out.fail(format!("{} encap(pkR = special point #{}, skS #{}, auth {}): got {} want {}", kem.name(), pk_idx, sk_idx, auth, g.as_ref().map(|_| ()).class(), if w.is_some() { "Ok(RFC shared secret, enc)" } else { "failure" })),
                 }
             }
-            Case::Encap { kem, auth, tag } => {
-                out.outcome = format!("encap{}/{}", if *auth { "-auth" } else { "" }, kem.name());
+            Case::Encap { kem, auth, tag, rel } => {
+                out.outcome = format!("encap{}{}/{}", if *auth { "-auth" } else { "" }, if *rel > 0 { "-related-keys" } else { "" }, kem.name());
                 let ops = kem_ops(*kem);
-                let k = keys(*kem, *tag, cfg.seed);
+                let mut k = keys(*kem, *tag, cfg.seed);
+                // the recipient, sender-identity and ephemeral key pairs are independent in the RFC; nothing may key on two of
+                // them being the same: 1 identity = recipient (a party sealing to itself), 2 ephemeral = recipient (the RNG
+                // hands out the bytes the recipient key was derived from: enc = pkR), 3 ephemeral = identity, 4 all three
+                let ikm_r = bytes(Fill::Mix, kem.nsk(), tag.wrapping_mul(3) + 1, cfg.seed);
+                let ikm_s = bytes(Fill::Mix, kem.nsk(), tag.wrapping_mul(3) + 2, cfg.seed);
+                match rel {
+                    1 => {
+                        k.sk_s = k.sk_r.clone();
+                        k.pk_s = k.pk_r.clone();
+                    }
+                    2 => k.ikm_e = ikm_r.clone(),
+                    3 => k.ikm_e = ikm_s.clone(),
+                    4 => {
+                        k.sk_s = k.sk_r.clone();
+                        k.pk_s = k.pk_r.clone();
+                        k.ikm_e = ikm_r.clone();
+                    }
+                    _ => {}
+                }
+                let k = k;
                 let (sk_e, _, _) = kem.derive_keypair(&k.ikm_e);
                 let (ss_ref, enc_ref) = match kem.encap(&k.pk_r, if *auth { Some(&k.sk_s) } else { None }, &sk_e) {
                     Some(x) => x,
